@@ -186,6 +186,28 @@ def gen_str(rnd):
         n % len(ch.encode("utf-8")))
 
 
+THRESHOLD_LENGTHS = [7, 8, 9, 15, 16, 17, 31, 32, 33, 63, 64, 65, 100, 127,
+                     128, 129, 255, 256, 257, 511, 512, 513, 1023, 1024,
+                     1025]
+
+
+def gen_long(rnd, pool):
+    """(type, value): a long homogeneous container of leaves."""
+    leaf = lambda: (rnd.choice(sorted(refcodec.INTS) + [
+        "bool", "float", "double", "string", "UUID", "Offset"]), [])
+    name = rnd.choice(["sequence", "sequence", "set", "mapping"])
+    t = (name, [leaf(), leaf()] if name == "mapping" else [leaf()])
+    n = rnd.choice(THRESHOLD_LENGTHS)
+    hk = lambda k: gen_value(rnd, k, pool, True)
+    if name == "sequence":
+        v = [gen_value(rnd, t[1][0], pool) for _ in range(n)]
+    elif name == "set":
+        v = {hk(t[1][0]) for _ in range(n)}
+    else:
+        v = {hk(t[1][0]): gen_value(rnd, t[1][1], pool) for _ in range(n)}
+    return t, v
+
+
 def gen_value(rnd, t, pool, hashable=False, maxlen=4):
     gt = pool.gt
     name, kids = t
@@ -204,9 +226,11 @@ def gen_value(rnd, t, pool, hashable=False, maxlen=4):
     if name == "Offset":
         return gt.Offset(pool.pick(rnd), gen_int(rnd, "uint64_t"))
     n = rnd.choice([0, 1, 1, 2, 2, 3, maxlen])
-    if name in ("sequence", "set", "mapping") and not kids[0][1] and \
-            rnd.random() < 0.01:
-        n = rnd.choice([255, 256, 257])  # element counts at a byte boundary
+    if name in ("sequence", "set", "mapping") and \
+            not any(k[1] for k in kids) and rnd.random() < 0.04:
+        # long runs of leaf elements: element counts around the sizes at
+        # which a bulk / cached / chunked path would plausibly switch on
+        n = rnd.choice(THRESHOLD_LENGTHS)
     if name == "sequence":
         return [gen_value(rnd, kids[0], pool, False, maxlen)
                 for _ in range(n)]
